@@ -22,9 +22,11 @@ class SquaredError(torch.nn.Module):
         Parameters
         ----------
         x : torch.tensor
-            The values for which the squared error should be computed.
+            The values for which the squared error should be computed. The last
+            axis holds the components (space dimension) that are summed up, all
+            other axes are batch axes (points, and input functions for DeepONets).
         """
-        return torch.sum(torch.square(x), dim=1)
+        return torch.sum(torch.square(x), dim=-1)
 
 
 class Condition(torch.nn.Module):
